@@ -64,6 +64,11 @@ def main():
         out["detected_by"] = sorted(c for c, v in det.items() if v["rc"] == 1)
     finally:
         sh(f"git -C /repo worktree remove --force {wt}")
+    prev = meta.get("confirmed") or {}
+    if skip_suite:
+        for k in ("suite", "tests_pass"):
+            if k in prev and k not in out:
+                out[k] = prev[k]
     meta["confirmed"] = out
     meta["ran"] = f"tools/seedtest.py {os.path.relpath(d, '/verif')} --checks {','.join(checks)} --tier {tier}"
     json.dump(meta, open(os.path.join(d, "meta.json"), "w"), indent=1)
